@@ -149,6 +149,9 @@ class G:
     def c02(self, n):
         r = self.r
         for _ in range(n):
+            if r.random() < 0.04:
+                yield self.wide_boundary()
+                continue
             k = r.randrange(12)
             op = r.choice(["mul", "mul", "cmul"])
             if k < 8:
@@ -188,6 +191,9 @@ class G:
     def c03(self, n):
         r = self.r
         for _ in range(n):
+            if r.random() < 0.04:
+                yield self.wide_boundary()
+                continue
             k = r.randrange(12)
             op = r.choice(["div", "div", "cdiv"])
             if k < 8:
@@ -239,6 +245,9 @@ class G:
     def c04(self, n):
         r = self.r
         for _ in range(n):
+            if r.random() < 0.04:
+                yield self.wide_boundary()
+                continue
             k = r.randrange(16)
             if k < 4:  # mul_rounded
                 (a, p), (b, q) = self.dec(), self.dec()
@@ -661,11 +670,70 @@ class G:
                 yield f"heven unop {r.choice(names)} {a} {p}"
 
     # ---------------------------------------------------------------- C16
+    def wide_boundary(self):
+        """public-operator requests whose wide-path floor quotient sits at ±(2^127 - 1), ±2^127 or next to them, with a remainder
+        that the mode may round up (the increment overflows) or down"""
+        r = self.r
+        T = r.choice([MAX, MAX, MAX, MAX + 1, MAX - 1])
+        if r.random() < 0.5:
+            # division: a·10^p = T·d + rem, 0 <= rem < d < 10^p
+            for _ in range(200):
+                pw = r.randrange(1, 19)
+                d = r.randrange(max(2, 10 ** pw // 3), 10 ** pw)
+                rem = (-T * d) % 10 ** pw
+                if rem < d and (rem > 0 or r.random() < 0.1):
+                    break
+            else:
+                pw, d, rem = 1, 9, 7
+                T = MAX
+            a = (T * d + rem) // 10 ** pw
+            if a > MAX:
+                a = MAX
+            sa, sd = r.choice([(1, 1), (1, 1), (-1, 1), (1, -1), (-1, -1)])
+            s1 = r.randrange(0, 19)
+            # n + s2 - s1 = pw
+            tot = pw + s1
+            nn = r.randrange(max(0, tot - 18), min(18, tot) + 1)
+            s2 = tot - nn
+            if r.random() < 0.25 and 0 <= 18 + s2 - s1:   # through `/` and checked_div when 18 + s2 - s1 = pw can be arranged
+                s2 = r.randrange(0, 19); s1 = 18 + s2 - pw
+                if 0 <= s1 <= 18:
+                    return f"{self.mode()} {r.choice(['div', 'cdiv'])} vv {sa * a} {s1} {sd * d} {s2}"
+                s1 = r.randrange(0, 19); tot = pw + s1
+                nn = r.randrange(max(0, tot - 18), min(18, tot) + 1); s2 = tot - nn
+            return f"{self.mode()} divr vv {sa * a} {s1} {sd * d} {s2} {nn}"
+        # multiplication: x·y = T·10^p + rem, 0 <= rem < 10^p
+        for _ in range(200):
+            pw = r.randrange(1, 19)
+            x = r.randrange(10 ** pw, 4 * 10 ** pw)
+            y = (T * 10 ** pw) // x + 1
+            rem = x * y - T * 10 ** pw
+            if 0 < rem < 10 ** pw and y <= MAX:
+                break
+        else:
+            pw, x, y = 1, 5 * (2 ** 64 - 1), 2 ** 64 + 1
+        sx, sy = r.choice([(1, 1), (1, 1), (-1, 1), (1, -1), (-1, -1)])
+        if r.random() < 0.5:
+            x, y = y, x
+            sx, sy = sy, sx
+        s1 = r.randrange(0, 19)
+        # s1 + s2 - n = pw
+        s2 = r.randrange(max(0, pw - s1), 19)
+        nn = s1 + s2 - pw
+        if nn < 0 or nn > 18:
+            s1, s2, nn = 18, pw, 18
+        if nn == 18 and r.random() < 0.5:
+            return f"{self.mode()} {r.choice(['mul', 'cmul'])} vv {sx * x} {s1} {sy * y} {s2}"
+        return f"{self.mode()} mulr vv {sx * x} {s1} {sy * y} {s2} {nn}"
+
     def c16(self, n):
         r = self.r
         B = 2 ** 64
         for _ in range(n):
-            k = r.randrange(12)
+            k = r.randrange(13)
+            if k == 12:
+                yield self.wide_boundary()
+                continue
             if k < 5:  # a·10^k / m through the doc-hidden helper
                 x = self.coeff(); kk = r.randrange(0, 39); y = abs(self.coeff()) or 1
                 if k == 0:  # exact division, divisor > 2^64
